@@ -312,11 +312,22 @@ _MIN = "min_tsize(rules_dict, root)"
 contract(FTS, "iterative_proof_tree_finder", props=["C05"], verify=False,
          trusted_reason="tree search in the pruned dictionary (bounded stand-in c05: exhaustive small dictionaries)",
          params={"rules_dict": RulesDict, "root": Int}, returns=_Node, modifies=[])
-contract(FTS, "smallish_random_proof_tree", props=["C05"], verify=False,
-         trusted_reason="tree search in the pruned dictionary (bounded stand-in c05: exhaustive small dictionaries); assumed here: "
-                        "it returns a proof tree for the root, hence one that is not smaller than the smallest",
+contract(FTS, "random_proof_tree", props=["C05"], verify=False,
+         trusted_reason="breadth-first random tree search in the pruned dictionary (bounded stand-in c05: exhaustive small "
+                        "dictionaries, every random choice); assumed here: it returns a proof tree for the root, hence one "
+                        "that is not smaller than the smallest",
+         params={"rules_dict": RulesDict, "root": Int}, returns=_Node,
+         ensures=["result.label == root", "tsize(result) >= " + _MIN, _MIN + " >= 1"], modifies=[])
+contract(FTS, "smallish_random_proof_tree", props=["C05"], lenient=True,
          params={"rules_dict": RulesDict, "root": Int, "minimization_time_limit": Float_}, returns=_Node,
-         ensures=["tsize(result) >= " + _MIN, _MIN + " >= 1"], modifies=[])
+         locals={"smallest_so_far": _Node, "next_tree": _Node, "smallest_size": Int, "next_tree_size": Int},
+         ensures=["result.label == root", "tsize(result) >= " + _MIN, _MIN + " >= 1"],
+         loops={0: dict(invariant=["smallest_so_far.label == root", "tsize(smallest_so_far) >= " + _MIN, _MIN + " >= 1",
+                                   # the recorded size is the size of the recorded tree
+                                   "smallest_size == tsize(smallest_so_far)"], modifies=[])},
+         modifies=[],
+         notes="whatever the clock says (readings are arbitrary), the tree handed back is one of the trees random_proof_tree "
+               "returned for this dictionary and root, and the size kept beside it is its size")
 contract(FTS, "proof_tree_generator_dfs", props=["C05"], verify=False,
          trusted_reason="depth-first generator of proof trees (bounded stand-in c05); assumed here: with a bound it yields "
                         "exactly the proof trees of at most `maximum` nodes (none iff the smallest tree is larger)",
